@@ -516,6 +516,7 @@ func c01WriterLifecycle(r *core.Report) {
 // varint really occupied (the counter of the reader it was decoded from), not a recomputed width.
 func checkReadSectionLength(r *core.Report, rule string) {
 	p := r.Prog
+	checkUvarintLenIdiom(r, rule, "carreader", "accum", "readasonecar")
 	// ReadSectionLength: returns (l, <counter field of the reader given to ReadUvarint>)
 	if f := r.Anchor(rule, "carreader.ReadSectionLength"); f != nil {
 		info := f.Pkg.TypesInfo
